@@ -42,14 +42,5 @@ for (kind, exc, func), sites in sorted(fam.items()):
     KF['findings'].append(dict(id='C20-%s-%s-%s' % (kind, (exc or 'none').replace('|', '+'), func), property='C20', status='open', match=match,
                                what=what + ' [%d listed fault sites, e.g. %s]' % (len(sites), sorted(sites)[0]),
                                why_not_fixed=why, example=sorted(sites)[0]))
-KF['findings'].append(dict(
-    id='C20-nonfinite-nonpositive-input-power', property='C20', status='open',
-    match=dict(kind='nonfinite', func='PATTERN DATA', cause='nonpositive-input-power'),
-    what='when sources and active (negative-resistance) loads together take no power from the generators (sum of the printed '
-         'source powers <= 0) the directive gain is the logarithm of a non-positive number and NaN is printed in the far-field '
-         'table; identified by the condition, whatever option values produce it (e.g. --laplace-load-a=1,-1 with '
-         '--laplace-load-b=3,99,1e-16, --load=-5000)',
-    why_not_fixed='what to print for an antenna without net input power (diagnostic, absolute field only, ...) is a design decision',
-    example='ground/laplace_load_a#0/1/-1+ground/laplace_load_b#0/1/99'))
 json.dump(KF, open('/verif/known_findings.json', 'w'), indent=1)
 print(len(fam), 'C20 families,', sum(len(s) for s in fam.values()), 'sites')
